@@ -2,6 +2,7 @@ package gedcom
 
 import (
 	"fmt"
+	"sync"
 	"time"
 )
 
@@ -11,12 +12,16 @@ type FamilyNode struct {
 	cachedHusband, cachedWife bool
 	husband                   *HusbandNode
 	wife                      *WifeNode
+
+	// cacheMutex guards the cached husband and wife when they are looked up
+	// from several goroutines.
+	cacheMutex sync.Mutex
 }
 
 func newFamilyNode(document *Document, pointer string, children ...Node) *FamilyNode {
 	return &FamilyNode{
 		newSimpleDocumentNode(document, TagFamily, "", pointer, children...),
-		false, false, nil, nil,
+		false, false, nil, nil, sync.Mutex{},
 	}
 }
 
@@ -26,11 +31,18 @@ func (node *FamilyNode) Husband() (husband *HusbandNode) {
 		return nil
 	}
 
+	node.cacheMutex.Lock()
 	if node.cachedHusband {
+		defer node.cacheMutex.Unlock()
+
 		return node.husband
 	}
+	node.cacheMutex.Unlock()
 
 	defer func() {
+		node.cacheMutex.Lock()
+		defer node.cacheMutex.Unlock()
+
 		node.husband = husband
 		node.cachedHusband = true
 	}()
@@ -50,11 +62,18 @@ func (node *FamilyNode) Wife() (wife *WifeNode) {
 		return nil
 	}
 
+	node.cacheMutex.Lock()
 	if node.cachedWife {
+		defer node.cacheMutex.Unlock()
+
 		return node.wife
 	}
+	node.cacheMutex.Unlock()
 
 	defer func() {
+		node.cacheMutex.Lock()
+		defer node.cacheMutex.Unlock()
+
 		node.wife = wife
 		node.cachedWife = true
 	}()
